@@ -55,6 +55,8 @@ def build_msg(m, devs, futs):
         args = [[futs[a] for a in args]]
     if cmd in ("install_suspender", "remove_suspender"):
         args = [SUSPENDERS[args[0]]]
+    if cmd == "declare_stream":
+        args, obj = [obj], None          # Msg('declare_stream', None, obj, name=...)
     return Msg(cmd, obj, *args, run=run, **kwargs)
 
 
